@@ -527,6 +527,54 @@ func nestedRecord(root *refpq.Node, outer, in0, inRest int, nullOpt bool, f *gen
 	return inner(root, 0, 0)
 }
 
+// ---------------------------------------------------------------- family G
+
+// Extremes is family G: dimensions that the other families keep small - very
+// long strings (length-prefix boundaries), many row groups, many pages.
+func Extremes(target string, thorough bool) Family {
+	return Family{Name: "G-" + target, Gen: func(c *fw.Ctx, emit Emit) {
+		t := sut.Get(target)
+		root := t.Schema()
+		lens := []int{255, 256, 65535, 65536}
+		if thorough {
+			lens = append(lens, 1<<20+3)
+		}
+		// (1) huge strings in every string leaf, one leaf at a time
+		for li, leaf := range root.Leaves() {
+			if leaf.GoKind != reflect.String {
+				continue
+			}
+			for _, n := range lens {
+				f := &gen.Filler{}
+				base := []refpq.Val{fullRecord(root, 2, f), fullRecord(root, 1, f), fullRecord(root, 2, f)}
+				big := strings.Repeat("\x00\xffab", n/4+1)[:n]
+				recs := []refpq.Val{base[0], substitute(root, base[1], leaf, big), base[2]}
+				for _, cd := range codecs3 {
+					emit(fmt.Sprintf("str|l%d|n%d|z%d", li, n, cd), t, recs, []int{2, 1}, 2, cd)
+				}
+			}
+		}
+		// (2) many row groups and many pages
+		for _, nb := range []int{10, 33} {
+			f := &gen.Filler{}
+			var recs []refpq.Val
+			var batches []int
+			for b := 0; b < nb; b++ {
+				k := 1 + b%3
+				for i := 0; i < k; i++ {
+					recs = append(recs, patterned(root, []string{"lists-2", "alternating", "none-null", "all-null"}[(b+i)%4], b+i, f))
+				}
+				batches = append(batches, k)
+			}
+			for _, page := range []int{1, 2, 0} {
+				for _, cd := range codecs2 {
+					emit(fmt.Sprintf("batches%d|p%d|z%d", nb, page, cd), t, recs, batches, page, cd)
+				}
+			}
+		}
+	}}
+}
+
 // ---------------------------------------------------------------- selections
 
 // ForC01 returns the families of C01 (also reused by C02 and C16).
@@ -539,8 +587,11 @@ func ForC01(thorough bool) []Family {
 			OptionalBoolPacking(7),
 			ValueSweep("flat24", false),
 			ValueSweep("person", false),
-			LongRuns("mini", []int{8, 9, 504, 505}, true),
+			LongRuns("mini", []int{8, 9, 504, 505, 1000, 1001}, true),
 			LongRuns("obool", []int{7, 8, 9, 18, 27, 63, 64, 65, 504, 505, 1000, 1001}, false),
+			Extremes("mini", false),
+			Extremes("person", false),
+			Extremes("flat24", false),
 			LongRuns("flat24", []int{8, 9, 16, 17}, false),
 			LongRuns("person", []int{8, 9, 16, 17}, false),
 			StructureExhaustive("person", 2, 2, true, 40),
@@ -575,6 +626,10 @@ func ForC01(thorough bool) []Family {
 		StructureExhaustive("readme", 5, 2, true, 200),
 		StructureExhaustive("flat24", 2, 2, false, 0),
 		LongRuns("flat24", long, false),
+		Extremes("mini", true),
+		Extremes("person", true),
+		Extremes("flat24", true),
+		Extremes("document", true),
 		StructureExhaustive("reqdeep", 4, 2, true, 0),
 		StructureExhaustive("samename", 4, 2, true, 0),
 		StructureExhaustive("nest3", 6, 2, true, 300),
